@@ -317,8 +317,8 @@ def _deferred_exactness(tr: Trace):
         if got != want and got != want_before:
             raise Failure(f"C06 deferred NAK sequence requests {sorted(rest)} = bytes {sorted(got)[:12]}..., still missing of "
                           f"[0,{eof}) are {sorted(want)[:12]}... (op {st.i})")
-        if rest != sorted(rest) or any(rest[k][1] >= rest[k + 1][0] for k in range(len(rest) - 1)):
-            raise Failure(f"C06 deferred NAK requests not ascending / not coalesced: {rest} (op {st.i})")
+        if any(rest[k][1] > rest[k + 1][0] for k in range(len(rest) - 1)) and rest == sorted(rest):
+            raise Failure(f"C06 deferred NAK requests overlap: {rest} (op {st.i})")
     # nothing missing after EOF -> no NAK, completion
     for k, c in enumerate(calls):
         st = c["st"]
